@@ -2,7 +2,7 @@
    Model: Model/Alloc.v (exact transcription of alloc.go / freelist.go / region.go, validated against
    the implementation after every operation of random scripts). Region lists are read as sets of
    page ids (inl). Property theorems only. *)
-From VF Require Import Region Freelist Alloc RegionProofs AllocProofs.
+From VF Require Import Region Freelist Alloc RegionProofs AllocProofs TxAllocProofs MetaAllocProofs.
 From Coq Require Import Lia.
 
 (* Tx.Alloc / Tx.AllocN: every page handed out was free (in the data free list, or beyond the end of
@@ -72,6 +72,42 @@ Theorem C04_freelist_merge : forall a b lo, wfl lo a -> wfl lo b -> disjoint_l a
   count_pages (merge_region_lists a b) = count_pages a + count_pages b.
 Proof. exact merge_region_lists_spec. Qed.
 Print Assumptions C04_freelist_merge.
+
+(* ---- whole transactions: every state reachable by data allocations, frees, overwrite-page and meta page
+   allocations (with every growth of the meta area they cause; no overflow area) keeps the two free lists
+   disjoint, below the end of the data area, and the pages moved to the meta area out of the data free list ---- *)
+Theorem C04_tx_invariant : forall a0 p a t, Inv0 a0 -> treach a0 p a t -> FullInv a0 a t.
+Proof. exact treach_inv. Qed.
+Print Assumptions C04_tx_invariant.
+
+Theorem C04_free_lists_disjoint : forall a0 p a t, Inv0 a0 -> treach a0 p a t ->
+  forall id, inl id (fregions (a_free (meta a))) -> ~ inl id (fregions (a_free (data a))) /\ id < a_end (data a).
+Proof. intros a0 p a t I R. exact (fi_mbelow _ _ _ (treach_inv _ _ _ _ I R)). Qed.
+
+(* an overwrite page handed out was a free page of the meta area and is free in neither list afterwards *)
+Theorem C04_overwrite_page_fresh : forall a0 a t id a' t',
+  Inv0 a0 -> FullInv a0 a t -> metaTotal a < 2^28 ->
+  wal_alloc a t = Some (id, a', t') ->
+  FullInv a0 a' t' /\
+  (id <> 0 -> In id (t_allocated (tmeta t')) /\ ~ inl id (fregions (a_free (meta a'))) /\ ~ inl id (fregions (a_free (data a')))).
+Proof. exact full_wal_alloc_step. Qed.
+Theorem C04_meta_pages_fresh : forall a0 a t n regs a' t',
+  Inv0 a0 -> FullInv a0 a t -> 0 <= n < 2^28 -> metaTotal a < 2^28 ->
+  meta_alloc_regions a t n = Some (regs, a', t') ->
+  FullInv a0 a' t' /\
+  (forall id, inl id regs -> In id (t_allocated (tmeta t')) /\ ~ inl id (fregions (a_free (meta a'))) /\ ~ inl id (fregions (a_free (data a')))).
+Proof. exact full_meta_alloc_step. Qed.
+Print Assumptions C04_meta_pages_fresh.
+
+(* growth of the meta area takes its pages out of the data free list or from past the end of the data area,
+   never a page of the meta free list *)
+Theorem C04_meta_growth : forall a t count ok a' t',
+  DataInv a -> wff 2 (a_free (meta a)) ->
+  (forall id, inl id (fregions (a_free (meta a))) -> ~ inl id (fregions (a_free (data a))) /\ id < a_end (data a)) ->
+  a_end (data a) <= a_end (meta a) -> 0 <= count < 2^32 ->
+  try_grow a t count false = (ok, a', t') ->
+  (a' = a /\ t' = t) \/ exists regs, GrowEff a t a' t' regs.
+Proof. exact try_grow_spec. Qed.
 
 (* non-vacuity *)
 Definition ex_alloc : allocst :=
